@@ -228,6 +228,17 @@ def run(ctx):
                     if isinstance(den, ast.Name):
                         defs = [m for m in ast.walk(b) if isinstance(m, ast.Assign) and isinstance(m.targets[0], ast.Name) and m.targets[0].id == den.id]
                         den = defs[-1].value if defs else den
+                    # a divisor that is COUNTED in the snapshot loop after a conditional `continue` (`if lg.number_of_edges() == 0: ...; continue` /
+                    # `T += 1`) counts the snapshots that were not skipped: the average is taken over fewer snapshots than were iterated
+                    if isinstance(dv.right, (ast.Name, ast.Call)):
+                        dn_ = dv.right if isinstance(dv.right, ast.Name) else next((x for x in ast.walk(dv.right) if isinstance(x, ast.Name) and x.id not in ("max", "min", "float", "int")), None)
+                        if dn_ is not None:
+                            for lp_ in [l for l in ast.walk(b) if isinstance(l, ast.For)]:
+                                augs_ = [a_ for a_ in lp_.body if isinstance(a_, ast.AugAssign) and isinstance(a_.target, ast.Name) and a_.target.id == dn_.id and isinstance(a_.op, ast.Add)]
+                                skips_ = [i_ for i_ in lp_.body if isinstance(i_, ast.If) and any(isinstance(y, ast.Continue) for y in ast.walk(i_)) and augs_ and i_.lineno < augs_[0].lineno]
+                                if augs_ and skips_:
+                                    res.violation("D-AVG", f, norm(dv)[:80], "divisor", f"the divisor `{dn_.id}` is counted inside the loop over the snapshots AFTER `if {norm(skips_[0].test)[:40]}: ... continue`: snapshots that are skipped still contribute (zero) values but not to the count, so the sum is divided by fewer snapshots than there are", loc(fi, dv))
+                                    ok_any = True
                     if not (isinstance(den, ast.Call) and isinstance(den.func, ast.Name) and den.func.id == "len" and den.args):
                         continue  # some other division
                     carg = den.args[0]
